@@ -474,6 +474,10 @@ impl GitignoreBuilder {
                 is_absolute = true;
             }
         }
+        // A lone `!` (or `/`) carries no pattern. Like git, ignore the line.
+        if line.is_empty() {
+            return Ok(self);
+        }
         // If it ends with a slash, then this should only match directories,
         // but the slash should otherwise not be used while globbing.
         if line.as_bytes().last() == Some(&b'/') {
